@@ -149,6 +149,13 @@ func (el *eventloop) enroll(c net.Conn, addr net.Addr, ctx any) (resCh chan Regi
 			resCh <- RegisteredResult{Err: err1}
 			return
 		}
+		// The duplicated descriptor is ours, don't leak it if we fail before handing it to the event-loop.
+		enrolled := false
+		defer func() {
+			if !enrolled {
+				_ = unix.Close(dupFD)
+			}
+		}()
 
 		var (
 			sockAddr unix.Sockaddr
@@ -190,6 +197,7 @@ func (el *eventloop) enroll(c net.Conn, addr net.Addr, ctx any) (resCh chan Regi
 		ccb := &connWithCallback{c: gc, cb: func() {
 			close(connOpened)
 		}}
+		enrolled = true // from here on the event-loop owns the descriptor
 		if err := el.poller.Trigger(queue.LowPriority, el.register, ccb); err != nil {
 			gc.Close() //nolint:errcheck
 			resCh <- RegisteredResult{Err: err}
